@@ -276,9 +276,28 @@ def reference(installed, spec_list, lang):
     return out
 
 
+def _main_function(name):
+    """A function of wn/__main__.py without running the module (it parses sys.argv when imported): its imports and
+    the one function definition, compiled from the real source."""
+    import ast as _ast
+    import types
+    from vc.core import REPO
+    path = REPO / 'wn' / '__main__.py'
+    tree = _ast.parse(path.read_text())
+    keep = [n for n in tree.body if isinstance(n, (_ast.Import, _ast.ImportFrom)) or
+            (isinstance(n, _ast.FunctionDef) and n.name == name)]
+    mod = types.ModuleType('wn_main_' + name)
+    exec(compile(_ast.Module(body=keep, type_ignores=[]), str(path), 'exec'), mod.__dict__)
+    return getattr(mod, name)
+
+
 def bounded(sess: Session):
     import wn._db
-    cases, bad, bad_remove = 0, [], []
+    import contextlib
+    import io
+    import types
+    cases, bad, bad_remove, bad_cli, cli_cases = 0, [], [], [], 0
+    cli_lexicons = _main_function('_lexicons')
     old = wn.config.data_directory
     specs = POOL + [f'{a} {b}' for a, b in itertools.product(POOL[:9], POOL[:11]) if a != b]
     if sess.tier == 'thorough':
@@ -305,6 +324,20 @@ def bounded(sess: Session):
                             (not raised and sorted(wobj) != sorted(want)):
                         bad.append({'installed_in_order': order, 'specifier': spec, 'lang': lang, 'got': got,
                                     'want': want, 'Wordnet_raised': raised})
+                    if ' ' not in spec or spec in specs[len(POOL):len(POOL) + 12]:
+                        # the `lexicons` subcommand lists what wn.lexicons() selects (nothing, without an error, when
+                        # the request matches no lexicon)
+                        cli_cases += 1
+                        out = io.StringIO()
+                        try:
+                            with contextlib.redirect_stdout(out), contextlib.redirect_stderr(io.StringIO()):
+                                cli_lexicons(types.SimpleNamespace(lang=lang, lexicon=spec))
+                            listed = [tuple(l.split('\t')[:2]) for l in out.getvalue().splitlines()]
+                        except (Exception, SystemExit) as exc:   # noqa: BLE001
+                            listed = repr(exc)
+                        if listed != [tuple(g.split(':', 1)) for g in got]:
+                            bad_cli.append({'installed_in_order': order, '--lexicon': spec, '--lang': lang,
+                                            'listed': listed, 'wn.lexicons': got})
             # wn.remove(specifier) removes exactly what the specifier selects (evaluated before anything is deleted)
             multi = ['foo foo', 'foo:2.0-rc+1 foo', 'foo:1.0 foo', 'foo:* foo', 'foobar foo bar'] + \
                 [sp for sp in specs if ' ' in sp][:: 7 if sess.tier != 'thorough' else 1]
@@ -337,6 +370,13 @@ def bounded(sess: Session):
         sess.violation_direct('wn._add.remove:selection', 'wn.remove(specifier) removed lexicons other than those the '
                               'specifier selects', {'witness': bad_remove[0], 'failing_cases': len(bad_remove)}, True,
                               functions=('wn._add.remove', 'wn._queries.find_lexicons'))
+    sess.add_bounded('wn.__main__._lexicons (the `lexicons` subcommand)', 'the single specifiers and 12 lists of the '
+                     'selection sweep x 4 lang values', cli_cases, 'native execution against wn.lexicons()', not bad_cli)
+    if bad_cli:
+        sess.violation_direct('wn.__main__._lexicons:lists-selection', 'the subcommand does not list exactly what '
+                              'wn.lexicons(lang, lexicon) selects', {'witness': bad_cli[0],
+                                                                     'failing_cases': len(bad_cli)}, True,
+                              functions=('wn.__main__._lexicons',))
     sess.add_bounded('wn.lexicons / wn.Wordnet (specifier selection end to end, GLOB semantics)',
                      f'2 installation orders of 4 lexicons (prefix ids, 2 versions, dotted/plus/hyphen versions, 2 '
                      f'languages) x {len(specs)} specifier strings x 4 lang values', cases,
